@@ -242,17 +242,19 @@ inductive Lit where
 
 def signText (neg : Bool) : List Char := if neg then ['-'] else []
 
+def expText : Option (Bool × List Char) → List Char
+  | Option.none => []
+  | some (eneg, ds) => 'e' :: (signText eneg ++ ds)
+
+def quoteChar (dq : Bool) : Char := if dq then '"' else '\''
+
 def Lit.text : Lit → List Char
   | .none => "None".toList
   | .bool true => "True".toList
   | .bool false => "False".toList
   | .int neg ds => signText neg ++ ds
-  | .float neg ip fp ex =>
-    signText neg ++ ip ++ '.' :: fp ++
-      (match ex with
-       | Option.none => []
-       | some (eneg, ds) => 'e' :: signText eneg ++ ds)
-  | .str dq cs => (if dq then '"' else '\'') :: cs ++ [if dq then '"' else '\'']
+  | .float neg ip fp ex => signText neg ++ (ip ++ '.' :: (fp ++ expText ex))
+  | .str dq cs => quoteChar dq :: (cs ++ [quoteChar dq])
 
 def signed (neg : Bool) (n : Nat) : Int := if neg then -(n : Int) else (n : Int)
 
@@ -291,13 +293,16 @@ inductive Arg where
   | kw (k : String) (l : Lit)
   deriving DecidableEq, Repr
 
-def identChar (c : Char) : Bool := c.isAlphanum || c == '_'
+/-- ASCII letter, digit or underscore -/
+def identChar (c : Char) : Bool :=
+  (48 ≤ c.toNat && c.toNat ≤ 57) || (65 ≤ c.toNat && c.toNat ≤ 90) ||
+    (97 ≤ c.toNat && c.toNat ≤ 122) || c.toNat == 95
 
-/-- Python identifier (ASCII) -/
+/-- Python identifier (ASCII): nonempty, identifier characters, not starting with a digit -/
 def isIdent (k : String) : Bool :=
   match k.toList with
   | [] => false
-  | c :: cs => (c.isAlpha || c == '_') && cs.all identChar
+  | c :: cs => !isDig c && identChar c && cs.all identChar
 
 def Arg.text : Arg → List Char
   | .pos l => l.text
@@ -314,7 +319,7 @@ def joinComma : List (List Char) → List Char
 
 /-- the call expression `name(arg, …, k=arg, …)` -/
 def render (name : String) (as : List Arg) : List Char :=
-  name.toList ++ '(' :: joinComma (as.map Arg.text) ++ [')']
+  name.toList ++ '(' :: (joinComma (as.map Arg.text) ++ [')'])
 
 def argVals : List Arg → List PyVal
   | [] => []
